@@ -238,6 +238,14 @@ func GetAttrString(self Object, key string) (res Object, err error) {
 	// its own method resolution order (type_getattro)
 	if cls, ok := self.(*Type); ok && cls.Mro != nil {
 		if res = cls.Lookup(key); res != nil {
+			// Bind as cls.attr does: __get__(None, cls), so that
+			// classmethods bind the class and staticmethods unwrap.
+			// Properties are returned as themselves.
+			if _, isProperty := res.(*Property); !isProperty {
+				if I, ok := res.(I__get__); ok {
+					return I.M__get__(None, cls)
+				}
+			}
 			return res, nil
 		}
 	}
